@@ -11,10 +11,5 @@ CONSTANTS
   AckTails <- TailsRssi
   Bug = "never_flip_down"
 INVARIANT PropertyHolds
-INVARIANT StepFormHolds
 INVARIANT CompleteAtRest
-INVARIANT SafelinkIffEcho
-INVARIANT NeedsResendingIsNotSafelink
-INVARIANT Lockstep
-INVARIANT TypeOK
 CHECK_DEADLOCK FALSE
